@@ -53,6 +53,39 @@ def weight_rules(ck):
             od = [s for s in body if isinstance(s, ast.Assign) and u(s.targets[0]) == 'out_idx' and u(s.value) == 'mod_to_out[{}]'.format(bv)]
             ok = len(s1) == 1 and len(s2) == 1 and len(od) == 1 and all(unconditional_in(amm, body, s) for s in (s1[0], s2[0], od[0]))
     ck.ob('PROV-weights', mod.loc(amm), ok, 'modification mappings record their weights in both tables the same way', key='PROV-weights|modification')
+    placement_weights_rule(ck)
+
+
+def placement_weights_rule(ck):
+    """Mapping._graph_map: a placement hands on, for every matched atom, the atom's *whole* table of (particle -> weight) -- an atom shared between
+    particles keeps all its particles.  The statements that build the placement are interpreted on a sample match with a shared atom."""
+    import collections
+    mp = ck.index.mod('vermouth/map_parser.py')
+    fn = mp.func('Mapping._graph_map')
+    ck.analysed(mp, fn)
+    loops = [s for s in fn.body if isinstance(s, ast.For) and 'isomorphisms' in u(s.iter)]
+    ok = len(loops) == 1
+    detail = 'the loop over the matches was not found'
+    if ok:
+        ys = [n for n in ast.walk(loops[0]) if isinstance(n, ast.Yield)]
+        ok = len(ys) == 1 and isinstance(ys[0].value, ast.Tuple) and len(ys[0].value.elts) == 3
+        detail = 'the placement is not yielded as (weights, block, references)'
+        if ok:
+            body = [s for s in loops[0].body if not any(n is ys[0] for n in ast.walk(s))]
+            env = {u(loops[0].target): {10: 'a', 11: 'b', 12: 'c'}, 'self.mapping': {'a': {1: 0.5, 2: 0.5}, 'b': {2: 1.0}, 'c': {3: 0}}, 'self.references': {},
+                   'defaultdict': collections.defaultdict, 'collections.defaultdict': collections.defaultdict}
+            try:
+                interp.run_stmts(body, env)
+                got = interp.ev(ys[0].value.elts[0], env)
+                got = {k: dict(v) for k, v in dict(got).items()}
+                ok = got == {10: {1: 0.5, 2: 0.5}, 11: {2: 1.0}, 12: {3: 0}}
+                detail = 'sample match gives {}'.format(got)
+            except interp.Unsupported as err:
+                ok, detail = False, 'code outside the interpretable fragment: {}'.format(err)
+            except Exception as err:  # pylint: disable=broad-except
+                ok, detail = False, 'interpreting the sample failed: {}: {}'.format(type(err).__name__, err)
+    ck.ob('PROV-weights', mp.loc(fn), ok, 'a placement carries, for every matched atom, all the particles that atom contributes to with their weights (zero weights included) -- ' + detail,
+          key='PROV-weights|placement')
 
 
 def run(ck):
@@ -288,6 +321,20 @@ def run(ck):
     merge_rules(ck)
     shared.no_monomorphism(ck, ['vermouth/map_parser.py', 'vermouth/processors/do_mapping.py', 'vermouth/graph_utils.py'])
     mp = ck.index.mod('vermouth/map_parser.py')
+    # the pattern a mapping looks for is its source block restricted to the atoms the mapping mentions -- all of them, whatever their weights
+    # (a zero-weight atom still belongs to the particle's constituents and carries bonds to the neighbouring placements)
+    minit = mp.func('Mapping.__init__')
+    ck.analysed(mp, minit)
+    rem = [c for c in walk_local(minit) if isinstance(c, ast.Call) and call_attr(c) in ('remove_nodes_from', 'remove_node') and 'block_from' in u(c.func.value)]
+    ok = len(rem) == 1 and call_attr(rem[0]) == 'remove_nodes_from' and u(rem[0].func.value) == 'self.block_from'
+    if ok:
+        arg = rem[0].args[0]
+        val = single_def(minit, arg.id) if isinstance(arg, ast.Name) else arg
+        ok = isinstance(val, ast.BinOp) and isinstance(val.op, ast.Sub) and \
+            u(val.left) in ('set(self.block_from.nodes.keys())', 'set(self.block_from.nodes)', 'set(self.block_from)') and \
+            u(val.right) in ('set(self.mapping.keys())', 'set(self.mapping)', 'self.mapping.keys()', 'set(mapping.keys())', 'set(mapping)', 'mapping.keys()')
+    ck.ob('WMC-induced', mp.loc(minit), ok, 'a mapping keeps in its pattern every atom it mentions (the source block minus exactly the atoms that are not keys of the mapping), '
+          'zero-weight atoms included', key='WMC-induced|pattern-atoms')
     gmap = mp.func('Mapping._graph_map')
     mapf = mp.func('Mapping.map')
     ck.analysed(mp, gmap)
